@@ -98,6 +98,10 @@ pub struct PsCfg {
     pub max_slice_len: usize,
     pub history: usize,
     pub safe_overflow: bool,
+    /// backpressure handler of the publisher: 0 none, 1 DISCARD_DATA, 2 DISCARD_DATA_AND_FAIL,
+    /// 3 RETRY on the first invocation of a delivery (retries == 0) and DISCARD_DATA_AND_FAIL afterwards,
+    /// 4 FOLLOW the strategy
+    pub handler: u8,
 }
 
 pub trait PubPort {
